@@ -33,9 +33,6 @@ OUT_OF_REACH = {
     'C02-o': 'only shows when a link error reported from inside the send of the parameter-table request (sent by the dispatcher thread itself) is '
              'processed by the hand-over thread before that send returns, and the application reconnects: the dispatcher is then mid-dispatch while '
              'the error is processed, which is the listed C02 race; everything observed under it is folded into that known finding (see C02-j)',
-    'C09-l': 'changes the outcome for about one random room in a thousand (a candidate position counted in two buckets lets a mirror bucket win); '
-             'the symptom is a mirrored initial estimate, which the listed C09 known finding already shows in 2-5 % of the rooms, so the quick '
-             'tier cannot tell the two apart (the rate bound of 10 % is not reached); the thorough tier sees single extra rooms only',
 }
 
 
